@@ -89,6 +89,9 @@ pub enum Case {
         blocklist: Vec<usize>,
         allow_roots: Vec<usize>,
         derive_all: bool,
+        /// replay of a known finding: do not exclude the known class by construction
+        #[serde(default)]
+        keep_known: bool,
     },
 }
 
@@ -421,6 +424,17 @@ impl Graph {
         res
     }
 
+    /// polymorphic[i]: node i or one of its ancestors has a vtable pointer
+    pub fn polymorphic(&self) -> Vec<bool> {
+        let n = self.nodes.len();
+        let mut p = vec![false; n];
+        for i in 0..n {
+            let node = &self.nodes[i];
+            p[i] = node.virtual_method || (node.virtual_bases && !node.bases.is_empty()) || node.bases.iter().any(|b| p[*b]);
+        }
+        p
+    }
+
     /// longest by-value chain below a tainted node (taint = float / vtable / dtor / T use)
     pub fn taint_depth(&self) -> usize {
         let n = self.nodes.len();
@@ -582,7 +596,7 @@ impl C07 {
 
     #[allow(clippy::too_many_arguments)]
     fn eval_dag(&self, case: &Case, env: &Env, out: &mut Outcome) {
-        let Case::Dag { graph, order_prios, seeds, opaque, blocklist, allow_roots, derive_all } = case else { unreachable!() };
+        let Case::Dag { graph, order_prios, seeds, opaque, blocklist, allow_roots, derive_all, keep_known } = case else { unreachable!() };
         let mut g = graph.clone();
         g.normalise();
         let n = g.nodes.len();
@@ -601,10 +615,29 @@ impl C07 {
             }
         }
         let classlike: Vec<usize> = (0..n).filter(|i| g.is_classlike(*i) || matches!(g.nodes[*i].kind, NodeKind::Template)).collect();
+        // known finding (known_findings.json, C07 HasVtableAnalysis): the vtable fact of an opaque
+        // struct with a polymorphic base is not a fixed point. Excluded by construction (counted),
+        // unless this case is the replay of that finding.
+        let poly = g.polymorphic();
+        let mut kept_known_opaque = false;
         for i in opaque.iter().filter(|i| classlike.contains(i)) {
+            let has_poly_base = g.nodes[*i].bases.iter().any(|b| poly[*b]);
+            if has_poly_base && !*keep_known {
+                out.excluded_known += 1;
+                continue;
+            }
+            kept_known_opaque |= has_poly_base;
             flags.push("--opaque-type".into());
             flags.push(nname(*i));
         }
+        let sig_of = |l: &str| -> String {
+            let a = analysis_of(l);
+            if kept_known_opaque && a.starts_with("HasVtableAnalysis/") {
+                "HasVtableAnalysis/opaque-polymorphic-base".to_string()
+            } else {
+                a
+            }
+        };
         for i in blocklist.iter().filter(|i| classlike.contains(i) && !opaque.contains(i)) {
             flags.push("--blocklist-type".into());
             flags.push(nname(*i));
@@ -634,7 +667,7 @@ impl C07 {
                 out.nontrivial(okey.clone());
             }
             for l in &base.consulted {
-                out.fail(format!("hook/unstable-consulted/{}", analysis_of(l)), format!("order {order:?} default schedule: {l}\n{text}"));
+                out.fail(format!("hook/unstable-consulted/{}", sig_of(l)), format!("order {order:?} default schedule: {l}\n{text}"));
             }
             let Some(btext) = base.result.ok() else {
                 match &base.result {
@@ -654,7 +687,7 @@ impl C07 {
                 let r = generate_hooked(&input, &env.dir, Some(*s));
                 out.evaluations += 1;
                 for l in &r.consulted {
-                    out.fail(format!("hook/unstable-consulted/{}", analysis_of(l)), format!("order {order:?} work-list seed {s}: {l}\n{text}"));
+                    out.fail(format!("hook/unstable-consulted/{}", sig_of(l)), format!("order {order:?} work-list seed {s}: {l}\n{text}"));
                 }
                 if r.result != base.result {
                     out.fail("schedule/output-differs", format!("order {order:?}: work-list seed {s} changes the output: {}\n{text}", first_diff(&base.result, &r.result)));
@@ -764,6 +797,7 @@ impl Property for C07 {
                 blocklist,
                 allow_roots,
                 derive_all,
+                keep_known: false,
             })
             .boxed()
     }
